@@ -527,7 +527,7 @@ func main() {
 
 	// 1. base64 texts (malformed stream) and encoder
 	alpha := "AZaz09+/=\r\n -_Qg"
-	for i := 0; i < run.N(150, 1500); i++ {
+	for i := 0; i < run.N(110, 1500); i++ {
 		n := r.Intn(25)
 		b := make([]byte, n)
 		for k := range b {
@@ -631,7 +631,7 @@ func main() {
 	for _, role := range []string{"consumer", "master"} {
 		tok := tokens[role]
 		data, _ := base64.StdEncoding.DecodeString(tok)
-		for i := 0; i < run.N(40, 400); i++ {
+		for i := 0; i < run.N(28, 400); i++ {
 			d := append([]byte{}, data...)
 			switch r.Intn(4) {
 			case 0:
@@ -651,11 +651,14 @@ func main() {
 			}
 		}
 		for n := 0; n <= nsz+17; n++ { // every truncation length around the nonce and tag sizes
+			if !run.Thorough() && role == "master" && n%3 != 0 {
+				continue
+			}
 			doEnforce(base64.StdEncoding.EncodeToString(data[:n]), someQs[:1], "truncated")
 			doRefresh(base64.StdEncoding.EncodeToString(data[:n]), 7, "truncated")
 		}
 		// text-level tampering of the base64 string
-		for i := 0; i < run.N(20, 200); i++ {
+		for i := 0; i < run.N(12, 200); i++ {
 			b := []byte(tok)
 			b[r.Intn(len(b))] = "ABCDEFGHIJKLMNOPQRSTUVWXYZabcdefghijklmnopqrstuvwxyz0123456789+/=\n"[r.Intn(66)]
 			doEnforce(string(b), someQs[:2], "text-tampered")
@@ -707,7 +710,7 @@ func main() {
 
 	// 6. refresh chains: every new token is refreshed again; a negative or wrapping
 	//    duration yields an expired token that must not be revived
-	for c := 0; c < run.N(12, 120); c++ {
+	for c := 0; c < run.N(8, 120); c++ {
 		role := roles[r.Intn(4)]
 		tok, ok := doGenerate(role, int64(1+r.Intn(5000)))
 		for step := 0; ok && step < 6; step++ {
@@ -734,7 +737,7 @@ func main() {
 			doHandler(h, q[0], q[1], "")
 		}
 	}
-	for i := 0; i < run.N(60, 600); i++ {
+	for i := 0; i < run.N(40, 600); i++ {
 		role := roles[r.Intn(4)]
 		p := policyObjs[r.Intn(len(policyObjs))]
 		vs := variants(p)
